@@ -159,9 +159,9 @@ def apply_contract_env(ex, info, env, st, node):
         ex.pending_exits.append((z3.And(*(guards + [cond])), exc, where))
     selfobj = env.get("self")
     old = {}
+    if isinstance(selfobj, VObj):
+        old["old_self"] = selfobj.copy()
     if isinstance(selfobj, VObj) and info.modifies:
-        old_self = selfobj.copy()
-        old["old_self"] = old_self
         decl = info.params.get("self")
         decl = decl.fields if isinstance(decl, S.Obj) else {}
         for fld in info.modifies:
